@@ -582,7 +582,14 @@ def run(ctx):
         ctx.violation("radix-letters", nv.file_line(), "the classifier maps prefix letters %s, take_prefix maps %s" % ({chr(k): v for k, v in sorted(rm_n.items())}, {chr(k): v for k, v in sorted(rm_p.items())}))
     # (c) both use the same digit function
     ctx.instance(1)
-    ok = pdg.name in ctx.cg.callees(NAIVE) and pdg.name in ctx.cg.callees(PI + "parse_integer")
+    def own_callees(n_):
+        # the function and the closures written inside it (`chars.all(|ch| radix.parse_digit(ch).is_some())`)
+        out_ = set(ctx.cg.callees(n_))
+        for m_ in prog.fns:
+            if m_.startswith(n_ + "::{closure"):
+                out_ |= set(ctx.cg.callees(m_))
+        return out_
+    ok = pdg.name in own_callees(NAIVE) and pdg.name in own_callees(PI + "parse_integer")
     ctx.oblig(ok, {"digits": "Radix::parse_digit on both sides"}, "shared callee")
     if not ok:
         ctx.violation("digit-function", nv.file_line(), "the classifier and the integer parser do not share Radix::parse_digit")
@@ -678,12 +685,53 @@ def run(ctx):
     ctx.need(len(LBL) == 1, "the label argument parser (TryParse for Label)")
     lf = prog.fns[LBL[0]]
 
+    def _sign_guard(f, cb, ct):
+        """the call hands parse_integer a text that was first tested: it is reached only when the text is empty (parse_integer answers
+        "no integer" itself) or starts with + or -; the other outcome of the starts_with test never reaches the call"""
+        root = kit.strip_refs(f.expr(ct["args"][0], 6))
+        sw_blocks = []
+        for b2, t2, c2 in f.calls():
+            if not (c2 and c2.endswith("<impl str>::starts_with") and len(t2["args"]) == 2 and kit.strip_refs(f.expr(t2["args"][0], 6)) == root):
+                continue
+            pat = kit.resolve_promoteds(prog, f.expr(t2["args"][1], 6))
+            chars_ = sorted(x[1] for x in expr_walk(pat) if x[0] == "const" and isinstance(x[1], int))
+            if chars_ != [43, 45] or t2.get("t") is None:
+                continue
+            st = f.term(t2["t"])
+            if st["k"] != "switch" or op_local(st["a"]) != t2["dest"]["l"]:
+                continue
+            tg_ = {v: x for v, x in st["targets"]}
+            f_edge = tg_.get(0)
+            if f_edge is None or cb in f.reachable(f_edge):
+                continue
+            sw_blocks.append(b2)
+        if not sw_blocks:
+            return False
+        # every other way to the call goes over the "is empty" outcome of a test of the same text
+        skip_edges = set()
+        for b2, t2, c2 in f.calls():
+            if c2 and c2.endswith("<impl str>::is_empty") and kit.strip_refs(f.expr(t2["args"][0], 6)) == root and t2.get("t") is not None:
+                st = f.term(t2["t"])
+                if st["k"] == "switch" and op_local(st["a"]) == t2["dest"]["l"]:
+                    tg_ = {v: x for v, x in st["targets"]}
+                    skip_edges.add((t2["t"], st["otherwise"] if 0 in tg_ else tg_.get(1)))
+        seen_, todo_ = set(), [0]
+        while todo_:
+            x = todo_.pop()
+            if x in seen_ or x in sw_blocks:
+                continue
+            seen_.add(x)
+            todo_ += [y for y in f.succ_map()[x] if (x, y) not in skip_edges]
+        return cb not in seen_
+
     def sign_args(f, depth=0):
         """values of parse_integer's `require_sign` on every route from f: list of (site, const or None)"""
         out = []
         for b, t, c in f.calls():
             if c == PINT:
                 a = f.expr(t["args"][1], 8) if len(t["args"]) > 1 else ("unknown", "?")
+                if len(t["args"]) == 1 and _sign_guard(f, b, t):
+                    a = ("const", 1)          # the request is spelled as a test in front of the call
                 out.append((sp_file_line(t.get("sp")), a[1] if a[0] == "const" else None))
             elif c in prog.fns and c != f.name and depth < 3 and PINT in ctx.cg.reachable([c]):
                 sub = sign_args(prog.fns[c], depth + 1)
@@ -716,6 +764,8 @@ def run(ctx):
         reads_sign = any(c and (c.endswith("::is_none") or c.endswith("::is_some")) for b in side for bb, tt, c in [(b, pint.term(b), callee_of(pint.term(b)) if pint.term(b)["k"] == "call" else None)]) \
             or any(pint.term(b)["k"] == "switch" and pint.expr(pint.term(b)["a"], 4)[0] == "discr" for b in side)
         ok = bool(side & errb) and reads_sign and not any(pint.term(b)["k"] == "call" and str(callee_of(pint.term(b))).endswith("take_prefix") for b in side)
+    if not sw and pint.arg_count == 1 and routes and all(v == 1 for _, v in routes):
+        ok = True          # no request parameter: the test stands in front of the call on the label route (decided above, site by site)
     ctx.oblig(ok, {"parse_integer": "require_sign && no sign -> Err before the prefix is read"}, "error exit on the required-sign side")
     if not ok:
         ctx.violation("require-sign-honoured", pint.file_line(), "parse_integer no longer rejects a missing sign when one is required (before reading the prefix)")
